@@ -2,6 +2,7 @@ import WhatIs.Model.Jwt
 import WhatIs.Model.Json
 import WhatIs.Lemmas.Jwt
 import WhatIs.Lemmas.Json
+import WhatIs.Lemmas.JwtText
 /-
   Props/C18.lean — PROPERTY THEOREMS for C18 (JWTs are recognised structurally and their registered fields shown
   faithfully).  `json` (the behaviour of encoding/json) is universally quantified; `data`, objects, values
@@ -171,6 +172,26 @@ theorem numeric_date_from_text (order : List String) (ms : List (List Nat × Val
       (⟨descr.toList.map Char.toNat, Civil.fmtDateTime n⟩ : Attr) ∈ attributesOfIn order kv := by
   obtain ⟨kv, hd, hl⟩ := doc_lookup ms hok hn _ hascii _ hm
   exact ⟨kv, hd, numeric_dates order kv k descr n hr hk hp hl⟩
+
+open WhatIs.Spec.JsonText WhatIs.Lemmas.Json WhatIs.Lemmas.JwtText in
+/-- THE TOKEN FROM ITS TEXT: base64url (RFC 4648 §5, unpadded) of the RFC 8259 text of ANY header object, '.', the same of
+    ANY payload object, '.', base64url of ANY signature octets — is reported as a JWT whose attributes are exactly the
+    registered header parameters of the header members, the registered claims of the payload members, and the signature
+    text.  No library enters as a hypothesis: base64 (C14), the JSON reader (Model/Json.lean) and the table-driven attribute
+    builders are all concrete. -/
+theorem jwt_token_from_text (h p : List (List Nat × Val)) (hh : ∀ x ∈ h, MemberOk x) (hp : ∀ x ∈ p, MemberOk x)
+    (sig : Bytes) (hsig : sig.Valid) :
+    jwtData Json.doc (tokenText h p sig) =
+      .ok (.mk (strBytes "JSON Web Token (JWT)")
+        (headerAttributes (assignAll [] h) ++ payloadAttributes (assignAll [] p) ++
+          [⟨strBytes "Signature", B64.encode true false sig⟩]) []) :=
+  jwtData_tokenText null_rejected h p hh hp sig hsig
+
+open WhatIs.Spec.JsonText WhatIs.Lemmas.JwtText in
+/-- non-vacuity: the RFC 7519 style token for {"alg":"HS256","typ":"JWT"} . {"sub":"é","exp":1700000000} . "sig" -/
+example : tokenText [(strBytes "alg", .str (strBytes "HS256")), (strBytes "typ", .str (strBytes "JWT"))]
+      [(strBytes "sub", .str [233]), (strBytes "exp", .int 1700000000)] (strBytes "sig") =
+    strBytes "eyJhbGciOiJIUzI1NiIsInR5cCI6IkpXVCJ9.eyJzdWIiOiLDqSIsImV4cCI6MTcwMDAwMDAwMH0.c2ln" := by decide +kernel
 
 -- what the reader refuses, and the corners of `unquote` (witnesses, by evaluation) ---------------------------------
 section witnesses
